@@ -3,10 +3,11 @@
    and semantic ([parse_lines] : list pline -> components x relation).  The semantic theorems hold for
    every list of lines; the lexical layer is tied to the real parser by correspondence on printed diagrams
    and proved here for every documented line form and EVERY component name / alias / arrow label
-   (C06_lex_*: tokens separated by single blanks; [is_name]: non-empty, word characters and dots).
+   (C06_lex_*: tokens separated by single blanks; [is_name]: non-empty, word characters and dots), and for EVERY layout
+   of such a line (C06_lex_layout_independent: indentation, trailing blanks, runs of blanks / tabs between the tokens).
    Tag slicing: C06_text_outside_tags_ignored / _no_tags_rejected / _no_end_tag_rejected (texts whose only '@' are the tags).
-   Still partial: runs of blanks / indentation, and texts with further '@' characters or repeated tags, are covered by
-   evaluation on instances (C06_lexical_forms_partial) and by correspondence only. *)
+   Still partial: texts with further '@' characters or repeated tags are covered by evaluation on instances
+   (C06_lexical_forms_partial) and by correspondence only. *)
 From Coq Require Import List Bool NArith Permutation.
 From PTA Require Import Sx Names Search Label Puml LabelProofs DiagramProofs PumlLexProofs PumlTagProofs.
 Import ListNotations.
@@ -68,6 +69,29 @@ Theorem C06_lex_arrow : forall x y tx ty dir ar,
   lex_line (unwords [tx; ar; ty]) = if dir then PArrow x y else PArrow y x.
 Proof. exact lex_arrow. Qed.
 Print Assumptions C06_lex_arrow.
+
+(* the meaning of a line depends on its tokens only: any indentation, any trailing blanks, any non-empty run of
+   blanks / tabs between two tokens ([layout_of ts s]: s is such a layout of the tokens ts) - so each C06_lex_* form
+   above holds for every layout of its line.  D26 was the real parser violating exactly this. *)
+Theorem C06_lex_layout_independent : forall ts s, layout_of ts s -> lex_line s = lex_line (unwords ts).
+Proof. exact lex_line_layout. Qed.
+Print Assumptions C06_lex_layout_independent.
+
+Theorem C06_lex_arrow_any_layout : forall x y tx ty dir ar s,
+  is_name x = true -> is_name y = true -> ref_form x tx -> ref_form y ty -> arrow_form dir ar ->
+  layout_of [tx; ar; ty] s ->
+  lex_line s = if dir then PArrow x y else PArrow y x.
+Proof. intros x y tx ty dir ar s Hx Hy Rx Ry Ha HL. rewrite (lex_line_layout _ _ HL). exact (lex_arrow x y tx ty dir ar Hx Hy Rx Ry Ha). Qed.
+Print Assumptions C06_lex_arrow_any_layout.
+
+(* non-vacuity: "  [A]<TAB>--> [B]  " is a layout of the tokens [A], -->, [B] *)
+Example C06_layout_example :
+  layout_of [[91;65;93]; [45;45;62]; [91;66;93]] ([32;32] ++ [91;65;93] ++ [9] ++ [45;45;62] ++ [32] ++ ([91;66;93] ++ [32;32] ++ [])).
+Proof.
+  apply lo_lead; [reflexivity|]. apply lo_cons; [split; [discriminate|reflexivity]|reflexivity|discriminate|].
+  apply lo_cons; [split; [discriminate|reflexivity]|reflexivity|discriminate|].
+  apply lo_cons; [split; [discriminate|reflexivity]|reflexivity|discriminate|]. apply lo_nil. reflexivity.
+Qed.
 
 (* ---- text level: tags ----
    For texts in which '@' occurs only in the two tags: whatever stands before @startuml and after @enduml is ignored,
